@@ -160,7 +160,33 @@ pub enum Op {
     Fmt { a: Dec, var: u8, w: u8, p: u8, pauses: Vec<u16>, err_at: u16, reent: bool },
     /// `to_string()` — never rounds: a control.
     ToStr { a: Dec },
+    /// Any OTHER public API call (conversions from/to floats, integers and
+    /// strings incl. their error paths, +, -, %, checked variants, unary ops,
+    /// comparisons, hashing, Debug): none of them has any business with the
+    /// rounding mode, so the thread's mode must be the same afterwards and the
+    /// result must not depend on it.  `which` selects the call (MISC_NAMES),
+    /// `x` is an f64 bit pattern, `s` a literal (no blanks).
+    Misc { which: u8, a: Dec, b: Dec, x: u64, s: String },
 }
+
+pub const MISC_NAMES: [&str; 16] = [
+    "from_f64",
+    "from_f32",
+    "from_str",
+    "to_f64",
+    "to_f32",
+    "to_int",
+    "add",
+    "sub",
+    "checked_add_sub",
+    "rem",
+    "checked_rem",
+    "unary",
+    "cmp_hash",
+    "ratio_magnitude",
+    "debug",
+    "from_int",
+];
 
 pub const N_FMT_VARIANTS: u8 = 10;
 
@@ -590,7 +616,75 @@ pub fn exec(
             exec_fmt(*a, *var, *w, *p, pauses, *err_at, *reent, on_pause, info)
         }
         Op::ToStr { a } => Outcome::Text { out: d(*a).to_string(), ok: true },
+        Op::Misc { which, a, b, x, s } => exec_misc(*which, *a, *b, *x, s),
     }
+}
+
+fn exec_misc(which: u8, a: Dec, b: Dec, x: u64, s: &str) -> Outcome {
+    use core::hash::{Hash, Hasher};
+    use fpdec::{AsIntegerRatio, CheckedAdd, CheckedRem, CheckedSub};
+    use std::str::FromStr;
+    let (da, db) = (d(a), d(b));
+    let show = |r: Decimal| format!("{}/{}", r.coefficient(), r.n_frac_digits());
+    let txt = match which % MISC_NAMES.len() as u8 {
+        0 => match Decimal::try_from(f64::from_bits(x)) {
+            Ok(r) => show(r),
+            Err(e) => format!("err:{:?}", e),
+        },
+        1 => match Decimal::try_from(f64::from_bits(x) as f32) {
+            Ok(r) => show(r),
+            Err(e) => format!("err:{:?}", e),
+        },
+        2 => match Decimal::from_str(s) {
+            Ok(r) => show(r),
+            Err(e) => format!("err:{:?}", e),
+        },
+        3 => format!("{:016x}", f64::from(da).to_bits()),
+        4 => format!("{:08x}", f32::from(da).to_bits()),
+        5 => format!(
+            "{:?} {:?} {:?} {:?}",
+            i128::try_from(da).map_err(|e| format!("{:?}", e)),
+            i64::try_from(da).map_err(|e| format!("{:?}", e)),
+            u8::try_from(da).map_err(|e| format!("{:?}", e)),
+            i16::try_from(db).map_err(|e| format!("{:?}", e))
+        ),
+        6 => show(da + db),
+        7 => show(da - db),
+        8 => format!(
+            "{:?} {:?}",
+            da.checked_add(db).map(show),
+            da.checked_sub(db).map(show)
+        ),
+        9 => show(da % db),
+        10 => format!("{:?}", da.checked_rem(db).map(show)),
+        11 => format!(
+            "{} {} {} {} {} {}",
+            show(-da),
+            show(da.abs()),
+            show(da.floor()),
+            show(da.ceil()),
+            show(da.trunc()),
+            show(da.fract())
+        ),
+        12 => {
+            let mut h1 = std::collections::hash_map::DefaultHasher::new();
+            let mut h2 = std::collections::hash_map::DefaultHasher::new();
+            da.hash(&mut h1);
+            db.hash(&mut h2);
+            format!(
+                "{:?} {} {} {} {}",
+                da.cmp(&db),
+                da == db,
+                da < db,
+                da == 25_i32,
+                h1.finish() == h2.finish()
+            )
+        }
+        13 => format!("{:?} {}", da.as_integer_ratio(), da.magnitude()),
+        14 => format!("{:?} {:?}", da, db),
+        _ => show(Decimal::from(a.0 as i64)) + " " + &show(Decimal::from(b.1)),
+    };
+    Outcome::Text { out: txt, ok: true }
 }
 
 /// `exec` under `catch_unwind`: a panic of the real code becomes
@@ -616,7 +710,7 @@ pub fn exec_plain(op: &Op) -> Outcome {
 // ---------------------------------------------------------------------------
 // kinds (for statistics, L2 grouping, swarm masks)
 
-pub const KIND_NAMES: [&str; 21] = [
+pub const KIND_NAMES: [&str; 22] = [
     "round",
     "checked_round",
     "mul",
@@ -638,6 +732,7 @@ pub const KIND_NAMES: [&str; 21] = [
     "quantize_ii",
     "fmt",
     "to_string",
+    "misc",
 ];
 
 impl Op {
@@ -664,6 +759,7 @@ impl Op {
             Op::QuantizeII { .. } => 18,
             Op::Fmt { .. } => 19,
             Op::ToStr { .. } => 20,
+            Op::Misc { .. } => 21,
         }
     }
     pub fn kind_name(&self) -> &'static str {
@@ -671,7 +767,7 @@ impl Op {
     }
     /// Kinds that never consult the rounding mode (controls).
     pub fn is_control_kind(kind: usize) -> bool {
-        kind == 3 || kind == 20
+        kind == 3 || kind == 20 || kind == 21
     }
 }
 
@@ -778,6 +874,14 @@ impl Op {
                 )
             }
             Op::ToStr { a } => format!("to_string {}", dec_s(*a)),
+            Op::Misc { which, a, b, x, s } => format!(
+                "misc {} {} k={} x={:016x} s={}",
+                dec_s(*a),
+                dec_s(*b),
+                MISC_NAMES[(*which as usize) % MISC_NAMES.len()],
+                x,
+                if s.is_empty() { "-" } else { s }
+            ),
         }
     }
 
@@ -922,6 +1026,23 @@ impl Op {
                 }
             }
             "to_string" => Op::ToStr { a: pdec(0)? },
+            "misc" => {
+                let k = key("k")?;
+                let which = MISC_NAMES
+                    .iter()
+                    .position(|n| *n == k)
+                    .ok_or_else(|| format!("unknown misc call {}", k))? as u8;
+                let x = u64::from_str_radix(key("x")?, 16)
+                    .map_err(|e| format!("x=: {}", e))?;
+                let s = key("s")?;
+                Op::Misc {
+                    which,
+                    a: pdec(0)?,
+                    b: pdec(1)?,
+                    x,
+                    s: if s == "-" { String::new() } else { s.to_string() },
+                }
+            }
             other => return Err(format!("unknown op {}", other)),
         })
     }
